@@ -150,7 +150,9 @@ export function checkTriple(parser, name, v, o, core, ref) {
   const p2 = call(() => parser.parse(data, o));
   if (!p2.ok) return { clause: "reparse-threw", detail: String(p2.e && p2.e.message).slice(0, 120) };
   // ("parsing it again returns an equal value": key order is not part of the value)
-  if (!deepEqual(p2.v, data, false)) return { clause: "reparse-differs" + (tag || (droppedProtoName(p2.v, data) ? ":protoname-key-dropped" : "")), detail: `${show(data)} -> ${show(p2.v)}` };
+  // (the second parse may be the one that rebuilds an exotic object - a Map under an object type of another union branch)
+  if (!deepEqual(p2.v, data, false))
+    return { clause: "reparse-differs" + (tag || (droppedProtoName(p2.v, data) ? ":protoname-key-dropped" : exoticRebuilt(p2.v, data, core && ref ? ref.env : null, core ? [core] : null) ? ":exotic-object-under-object-type" : "")), detail: `${show(data)} -> ${show(p2.v)}` };
   const pf = projectionFault(data, v);
   if (pf) return { clause: "not-a-projection", detail: pf + ` data=${show(data)}` };
   if (core && ref) {
